@@ -147,7 +147,14 @@ impl InputList {
             let ev = reader.read_event_into(&mut buf);
             let event_lines = if let Ok(ok_ev) = ev.clone() {
                 // names, text and CDATA are all held as strings from here on
-                String::from_utf8(ok_ev.as_ref().to_vec())?;
+                let content = String::from_utf8(ok_ev.as_ref().to_vec())?;
+                if matches!(ok_ev, Event::Text(_) | Event::Start(_) | Event::Empty(_)) {
+                    if let Some(r) = invalid_char_ref(&content) {
+                        return Err(SvgdxError::ParseError(format!(
+                            "XML error near line {src_line}: '&#{r};' is not a character XML can contain"
+                        )));
+                    }
+                }
                 ok_ev.as_ref().iter().filter(|&c| *c == b'\n').count()
             } else {
                 0
@@ -527,6 +534,30 @@ impl IntoIterator for OutputList {
     fn into_iter(self) -> Self::IntoIter {
         self.events.into_iter()
     }
+}
+
+/// The body of the first character reference (`&#N;` or `&#xN;`) in character data or a
+/// start tag that does not name an XML 1.0 character. Such a reference is not well-formed,
+/// and content that is copied to the output as written would carry it along.
+fn invalid_char_ref(s: &str) -> Option<String> {
+    let mut rest = s;
+    while let Some(pos) = rest.find("&#") {
+        rest = &rest[pos + 2..];
+        let end = rest.find(';')?;
+        let body = &rest[..end];
+        let code = match body.strip_prefix('x') {
+            Some(hex) => u32::from_str_radix(hex, 16),
+            None => body.parse::<u32>(),
+        };
+        let is_xml_char = matches!(
+            code,
+            Ok(0x9 | 0xA | 0xD | 0x20..=0xD7FF | 0xE000..=0xFFFD | 0x10000..=0x10FFFF)
+        );
+        if !is_xml_char {
+            return Some(body.to_string());
+        }
+    }
+    None
 }
 
 /// XML 1.0 has no way to write the C0 control characters other than tab, LF and CR, nor
